@@ -14,7 +14,7 @@ import os
 
 import z3
 
-from ..core import PKG, REPO, Ob, PROVED, REFUTED, FAULT, try_replay, seed
+from ..core import seed, PKG, REPO, Ob, PROVED, REFUTED, FAULT, try_replay
 from ..pyvc import (Exec, Ctx, Obj, Opt, NONE, NoneVal, ExcVal, Builtin, TypeRef, Seq, Closure, GenError, LoopSpec, verify_function, discharge)
 from ..contracts import frontend as FE
 from ..contracts import model as M
@@ -386,7 +386,6 @@ def obligations_decorators():
                 res.append((c, val))
         return res
 
-    params = ("alpha", "beta", "gamma")
     RET = Obj("Other", {"__id__": z3.IntVal(77)})
 
     def func_contract(ex, ctx, args, kw):
@@ -395,63 +394,102 @@ def obligations_decorators():
         return [(c, RET)]
 
     def signature_model(ex, ctx, args, kw):
-        FE.assumed("inspect.signature/bind", "signature(f).parameters lists f's parameters in order; bind(*a, **k).arguments[name] is the value "
-                   "passed for that parameter, positionally or by keyword")
+        FE.assumed("inspect.signature/bind", "signature(f).parameters lists f's parameters in order; bind(*a, **k).arguments maps each explicitly "
+                   "passed parameter to its value (positional or keyword), .args is the prefix of positionally-passable bound parameters, "
+                   ".kwargs the rest; omitted defaulted parameters are absent")
         return [(ctx, Obj("Signature", {"parameters": Obj("Params", {})}))]
 
+    # signature shapes: (name, kind, has_default); kind: "pk" positional-or-keyword, "ko" keyword-only
+    SIGS = {
+        "three-required": (("alpha", "pk", False), ("beta", "pk", False), ("gamma", "pk", False)),
+        "defaults": (("alpha", "pk", False), ("beta", "pk", True), ("gamma", "pk", True)),
+        "keyword-only": (("alpha", "pk", False), ("gamma", "ko", False)),
+    }
+    cur_sig = {}
+
     def wrapper_method(ex, ctx, base, attr, args, kw):
+        sig = cur_sig["sig"]
         if isinstance(base, Obj) and base.cls == "Signature" and attr == "bind":
             bound = {}
             pos = list(args)
-            for p in params:
-                if pos:
-                    bound[p] = pos.pop(0)
-                elif p in kw:
-                    bound[p] = kw[p]
-            return [(ctx, Obj("Bound", {"arguments": bound}))]
+            for name, kind_, _ in sig:
+                if kind_ == "pk" and pos:
+                    bound[name] = pos.pop(0)
+                elif name in kw:
+                    bound[name] = kw[name]
+            a_ = []
+            for name, kind_, _ in sig:
+                if kind_ == "ko" or name not in bound:
+                    break
+                a_.append(bound[name])
+            k_ = {n: v for n, v in bound.items() if not any(v is x for x in a_)}
+            return [(ctx, Obj("Bound", {"arguments": bound, "args": tuple(a_), "kwargs": k_}))]
         if isinstance(base, Obj) and base.cls == "Params" and attr == "values":
-            return [(ctx, [Obj("Param", {"name": p}) for p in params])]
+            return [(ctx, [Obj("Param", {"name": n}) for n, _, _ in sig])]
+        if isinstance(base, Obj) and base.cls == "Params" and attr in ("keys", "items"):
+            ps = [Obj("Param", {"name": n}) for n, _, _ in sig]
+            return [(ctx, [n for n, _, _ in sig] if attr == "keys" else [(p.fields["name"], p) for p in ps])]
         return None
 
-    vals = {p: Obj("Other", {"__id__": z3.IntVal(10 + i)}) for i, p in enumerate(params)}
-    styles = {"positional": ([vals[p] for p in params], {}), "keyword": ([], dict(vals)), "mixed": ([vals["alpha"]], {"gamma": vals["gamma"], "beta": vals["beta"]})}
-    guards_sets = [{"alpha": 0, "gamma": 1}, {"beta": 0}, {}, {"alpha": 0, "beta": 1, "gamma": 2}]
-    for style, (a_, k_) in styles.items():
-        for gi, guards in enumerate(guards_sets):
-            nshape += 1
-            units = {p: Obj("Dimension", {"__id__": z3.IntVal(1000 + j)}) for p, j in guards.items()}
-            g = {"_assert_expected_unit": ("__contract__", "aeu"), "inspect": TypeRef("inspect"), "functools": TypeRef("functools")}
-            ex = FE.make_exec("core/quantity_decorator.py", UNIT, globals_extra=g, contracts={"aeu": aeu_contract, "func": func_contract},
-                              models={"__method__": wrapper_method},
-                              attr_model=lambda ex, ctx, base, attr: ([(ctx, Builtin("inspect.signature", signature_model))] if isinstance(base, TypeRef) and base.name == "inspect" and attr == "signature"
-                                                                      else ([(ctx, z3.String("func.__name__"))] if attr == "__name__" else None)))
-            env = {"decorator_kwargs": dict(units), "func": ("__contract__", "func")}
+    allnames = ("alpha", "beta", "gamma")
+    vals = {p: Obj("Other", {"__id__": z3.IntVal(10 + i)}) for i, p in enumerate(allnames)}
+    CALLS = {
+        "three-required": {"positional": ([vals[p] for p in allnames], {}), "keyword": ([], dict(vals)),
+                           "mixed": ([vals["alpha"]], {"gamma": vals["gamma"], "beta": vals["beta"]})},
+        "defaults": {"skip-defaulted-middle": ([vals["alpha"]], {"gamma": vals["gamma"]}), "all-positional": ([vals[p] for p in allnames], {}),
+                     "only-required": ([vals["alpha"]], {})},
+        "keyword-only": {"keyword-only-passed": ([vals["alpha"]], {"gamma": vals["gamma"]})},
+    }
+    guards_sets = [{"alpha": 0, "gamma": 1}, {"beta": 0}, {}, {"alpha": 0, "beta": 1, "gamma": 2}, {"gamma": 0}]
+    styles = CALLS["three-required"]
+    attr_hook = lambda ex, ctx, base, attr: ([(ctx, Builtin("inspect.signature", signature_model))] if isinstance(base, TypeRef) and base.name == "inspect" and attr == "signature"
+                                             else ([(ctx, z3.String("func.__name__"))] if attr == "__name__" else None))
+    for signame, sig in SIGS.items():
+        signames = [n for n, _, _ in sig]
+        for style, (a_, k_) in CALLS[signame].items():
+            passed = set(signames[:len(a_)]) | set(k_)
+            for gi, guards in enumerate(guards_sets):
+                if not set(guards) <= set(signames):
+                    continue
+                nshape += 1
+                units = {p: Obj("Dimension", {"__id__": z3.IntVal(1000 + j)}) for p, j in guards.items()}
+                g = {"_assert_expected_unit": ("__contract__", "aeu"), "inspect": TypeRef("inspect"), "functools": TypeRef("functools")}
+                ex = FE.make_exec("core/quantity_decorator.py", UNIT, globals_extra=g, contracts={"aeu": aeu_contract, "func": func_contract},
+                                  models={"__method__": wrapper_method}, attr_model=attr_hook)
+                env = {"decorator_kwargs": dict(units), "func": ("__contract__", "func")}
+                cur_sig["sig"] = sig
 
-            def setup(ex, ctx, a_=a_, k_=k_):
-                return list(a_), dict(k_), None
+                def setup(ex, ctx, a_=a_, k_=k_, sig=sig):
+                    cur_sig["sig"] = sig
+                    return list(a_), dict(k_), None
 
-            def post(ex, ctx, out, info, guards=guards, units=units):
-                calls = ctx.ghost.get("aeu_calls", [])
-                guarded = [p for p in params if p in guards]
-                allpass = z3.And([PASS(item_id(vals[p]), unit_id(units[p])) for p in guarded]) if guarded else z3.BoolVal(True)
-                called = "func_called_with" in ctx.ghost
-                if out[0] == "return":
-                    yield "function-runs=>every-guarded-argument-passes", allpass
-                    yield "function-is-invoked-with-the-original-arguments", z3.BoolVal(called and out[1] is RET or (called and isinstance(out[1], Obj) and out[1].fields.get("__id__") is RET.fields["__id__"]))
-                    yield "every-guarded-parameter-is-checked-with-its-own-unit-and-name", z3.BoolVal(
-                        len(calls) == len(guarded) and all(c[0] is not None and z3.eq(item_id(c[0]), item_id(vals[p])) and z3.eq(unit_id(c[1]), unit_id(units[p])) and c[2] == p
-                                                           for c, p in zip(calls, guarded)))
-                else:
-                    yield "refused=>function-not-invoked", z3.BoolVal(not called)
-                    k = len(calls) - 1
-                    p = guarded[k] if 0 <= k < len(guarded) else None
-                    yield "refused=>a-guarded-argument-fails", z3.Not(PASS(item_id(vals[p]), unit_id(units[p]))) if p else z3.BoolVal(False)
-                    yield "error-names-that-parameter", z3.BoolVal(p is not None and calls[k][2] == p)
+                def post(ex, ctx, out, info, guards=guards, units=units, signames=signames, passed=passed):
+                    calls = ctx.ghost.get("aeu_calls", [])
+                    guarded = [p for p in signames if p in guards and p in passed]
+                    omitted = [p for p in signames if p in guards and p not in passed]
+                    allpass = z3.And([PASS(item_id(vals[p]), unit_id(units[p])) for p in guarded]) if guarded else z3.BoolVal(True)
+                    called = "func_called_with" in ctx.ghost
+                    if out[0] == "return":
+                        yield "function-runs=>every-guarded-argument-passes", allpass
+                        yield "function-is-invoked-and-its-result-returned", z3.BoolVal(called and isinstance(out[1], Obj) and out[1].cls == "Other" and z3.eq(item_id(out[1]), item_id(RET)))
+                        yield "every-guarded-passed-parameter-is-checked-with-its-own-unit-and-name", z3.BoolVal(
+                            len(calls) == len(guarded) and all(isinstance(c[0], Obj) and z3.eq(item_id(c[0]), item_id(vals[p])) and z3.eq(unit_id(c[1]), unit_id(units[p])) and c[2] == p
+                                                               for c, p in zip(calls, guarded)))
+                    else:
+                        yield "refused=>function-not-invoked", z3.BoolVal(not called)
+                        if out[1].cls == "KeyError":
+                            yield "KeyError-only-for-an-omitted-guarded-parameter", z3.BoolVal(bool(omitted))
+                        else:
+                            k = len(calls) - 1
+                            p = guarded[k] if 0 <= k < len(guarded) and isinstance(calls[k][0], Obj) and z3.eq(item_id(calls[k][0]), item_id(vals[guarded[k]])) else None
+                            yield "refused=>a-guarded-argument-fails", z3.Not(PASS(item_id(vals[p]), unit_id(units[p]))) if p else z3.BoolVal(False)
+                            yield "error-names-that-parameter", z3.BoolVal(p is not None and calls[k][2] == p)
 
-            verify_function(ex, "validate_input.validate_func.wrapper_validate", setup, post, closure_env=env)
-            tag = f"validate_input.wrapper_validate[{style};guards={'+'.join(sorted(guards)) or 'none'}]"
-            ex.obligations = [(nm.replace("/validate_input.validate_func.wrapper_validate/", f"/{tag}/"), h, g_, s_, c_) for nm, h, g_, s_, c_ in ex.obligations]
-            execs.append(ex)
+                verify_function(ex, "validate_input.validate_func.wrapper_validate", setup, post, closure_env=env)
+                tag = f"validate_input.wrapper_validate[{signame};{style};guards={'+'.join(sorted(guards)) or 'none'}]"
+                ex.obligations = [(nm.replace("/validate_input.validate_func.wrapper_validate/", f"/{tag}/"), h, g_, s_, c_) for nm, h, g_, s_, c_ in ex.obligations]
+                execs.append(ex)
+    cur_sig["sig"] = SIGS["three-required"]
 
     # validate_output / validate_output_same
     for which in ("validate_output", "validate_output_same"):
@@ -553,6 +591,15 @@ def callsite_replay(mod, fn, missing):
 
 
 def run(report):
+    from ..pyvc import GenError as _GenError
+    from ..contracts import refimpl as _refimpl
+    try:
+        _run(report)
+    except (_GenError, NotImplementedError, KeyError, AttributeError, TypeError) as e:
+        _refimpl.generation_fallback(report, 'gate', UNIT, f"{type(e).__name__}: {e}", seed())
+
+
+def _run(report):
     obs, execs = obligations_core()
     o2, e2, nshape = obligations_decorators()
     obs += o2
